@@ -83,7 +83,7 @@ def roundtrip_stream(s: str) -> bool:
         stream = NMTranParser().parse(text)
     except (lark.exceptions.LarkError, ModelSyntaxError):
         return True
-    return str(stream) == text and len(stream.records) == 1 and stream.records[0].raw_name == RECNAME
+    return str(stream) == text and len(stream.records) == 1
 
 
 def accepted(s):
